@@ -306,8 +306,8 @@ def rule_merge(ck: Check, repo: Repo, rid: str = "R3") -> None:
                         repo.loc(py))
 
 
-def rule_get_year(ck: Check, repo: Repo) -> None:
-    r = ck.rule("R4", "get_year table and get_reuse_info plumbing")
+def rule_get_year(ck: Check, repo: Repo, rid: str = "R4") -> None:
+    r = ck.rule(rid, "get_year table and get_reuse_info plumbing")
     q = "reuse.cli.annotate.get_year"
     fn = repo.func(q)
     ck.analysed_fn(q, "reuse.cli.annotate.get_reuse_info")
